@@ -185,6 +185,10 @@ def dag_gate(rep, prog, qname, param, rule="GATE", exc="ValueError", via=U + "is
     # dominance: every store / return after the gate is reached only with the gate passed
     late = [x for x in S.facts if x.qname == f.qname and x.kind in ("attrstore", "return")]
     undominated = [x for x in late if (call, True) not in gate_atoms(x.path, via)]
+    if f.name == "__init__":
+        # a constructor that raises leaves no object behind: attributes stored *before* the test, at the nesting level of the
+        # test itself, are harmless (the constructor cannot complete without passing it)
+        undominated = [x for x in undominated if not (x.kind == "attrstore" and x.order < r.order and tuple(x.path) == tuple(r.path[:-1]))]
     if undominated:
         x = undominated[0]
         rep.bad(rule + ".dominates", fwhere(f, x.node), "reached without passing the %s test" % via.split(".")[-1])
@@ -308,6 +312,89 @@ def hidden_state(rep, rule, w, terms, allowed):
     else:
         rep.ok(rule, w, "the result is a function of self.%s and the arguments only" % ", self.".join(sorted(allowed)))
     return extra
+
+
+FLOAT_DTYPES = (("extref", "float"), ("extref", "numpy.float64"), ("const", "float"), ("extref", "numpy.float_"), ("extref", "numpy.double"),
+                ("const", "float64"))
+
+
+def _shape_norm(sh):
+    if isinstance(sh, tuple) and sh and sh[0] == "list":
+        sh = ("tuple", sh[1])
+    if isinstance(sh, tuple) and sh and sh[0] == "tuple" and len(sh[1]) == 1:
+        sh = sh[1][0]
+    return sh
+
+
+def zeros_of(t, shapes=(), like=(), allow_empty=False):
+    """t is a fresh float array of zeros (np.zeros / np.zeros_like; np.empty when every entry is known to be written before it
+    is read) of one of the given shapes, in any spelling of the shape (tuple, list, keyword) and with no dtype or a float one"""
+    if not (isinstance(t, tuple) and t and t[0] == "ext"):
+        return False
+    kw = dict((k, v) for k, v in t[3] if k != "$draw")
+    if not set(kw) <= {"dtype"} or kw.get("dtype", FLOAT_DTYPES[0]) not in FLOAT_DTYPES:
+        return False
+    names = ("numpy.zeros",) + (("numpy.empty",) if allow_empty else ())
+    if t[1] in names and len(t[2]) == 1:
+        return _shape_norm(t[2][0]) in [_shape_norm(s_) for s_ in shapes]
+    if t[1] == "numpy.zeros_like" and len(t[2]) == 1:
+        return t[2][0] in like
+    return False
+
+
+def message_safe(rep, S, f, rule):
+    """building the exception must not raise another one: `"...%s" % x` unpacks x when it is a tuple (TypeError instead of the
+    documented exception), so a bare right operand that the same function treats as a possible tuple is reported"""
+    tuple_tested = set()
+    for fact in S.facts:
+        if fact.root != f.qname:
+            continue
+        for t in [getattr(fact, "term", None)] + [c for c, _ in getattr(fact, "path", ())]:
+            if t is None:
+                continue
+            for x in walk(t):
+                if isinstance(x, tuple) and len(x) == 4 and x[0] == "ext" and x[1] == "isinstance" and len(x[2]) == 2 and \
+                        any(y == ("extref", "tuple") for y in walk(x[2][1])):
+                    tuple_tested.add(x[2][0])
+                if isinstance(x, tuple) and len(x) == 4 and x[0] == "cmp" and x[1] in ("==", "is", "in") and x[2][:2] == ("ext", "type") and \
+                        any(y == ("extref", "tuple") for y in walk(x[3])):
+                    tuple_tested.add(x[2][2][0])
+    n = 0
+    for r in S.select("raise", qname=f.qname):
+        n += 1
+        bad = None
+        for x in walk(r.exc):
+            if isinstance(x, tuple) and len(x) == 4 and x[0] == "binop" and x[1] == "%" and x[3] in tuple_tested:
+                # under a path condition that excludes the tuple form the operand is a scalar
+                excluded = any(c == ("ext", "isinstance", (x[3], ("extref", "tuple")), ()) and pol is False for c, pol in r.path)
+                if not excluded:
+                    bad = x
+        if bad is not None:
+            rep.bad(rule, fwhere(f, r.node), "the message is built with `%% %s`, and %s may be a tuple here (the function tests isinstance(%s, tuple)): "
+                    "the %% operator unpacks it and a TypeError escapes instead of %s" % (fmt(bad[3]), fmt(bad[3]), fmt(bad[3]), r.exctype))
+        else:
+            rep.ok(rule, fwhere(f, r.node), "building the %s cannot itself fail on the documented argument forms" % r.exctype)
+    return n
+
+
+def model_history(rep, S, f, model_attrs, rule):
+    """what a method of a model hands out is a function of the model's defining attributes and of this call's arguments only:
+    reading any other attribute of self (a cache) or writing an attribute makes the answer depend on the call history"""
+    seen_terms = []
+    for fact in S.facts:
+        if fact.root == f.qname:
+            seen_terms += [getattr(fact, "value", None), getattr(fact, "term", None), getattr(fact, "base", None), getattr(fact, "recv", None)] + \
+                list(getattr(fact, "args", []) or []) + list((getattr(fact, "kwargs", {}) or {}).values())
+    hidden = sorted({x[1] for t in seen_terms if t is not None for x in walk(t) if isinstance(x, tuple) and len(x) == 2 and x[0] == "self" and isinstance(x[1], str)
+                     and x[1] not in model_attrs})
+    rebound = sorted({a.attr for a in S.select("attrstore", qname=f.qname)})
+    if hidden or rebound:
+        rep.bad(rule, fwhere(f), "%s %s: what it returns depends on what earlier calls left on the object" % (f.name, "; ".join(
+            (["reads self.%s, which is not part of the model (%s)" % (", self.".join(hidden), ", ".join(sorted(model_attrs)))] if hidden else []) +
+            (["rebinds self.%s" % ", self.".join(rebound)] if rebound else []))))
+    else:
+        rep.ok(rule, fwhere(f), "the result is a function of self.%s and the arguments only; no attribute is written" % " / ".join(sorted(model_attrs)))
+    return hidden, rebound
 
 
 def no_foreign_writes(rep, prog, qname, rule="OWN"):
